@@ -26,12 +26,14 @@ def tie(rep, tier, rng, model_ok):
     b = [simgen.gen_sched(rng) for _ in range(150 if q else 3000)]
     npn = [simgen.gen_nested_panic(rng) for _ in range(150 if q else 2000)]
     pif = [simgen.gen_panic_inflight(rng) for _ in range(200 if q else 3000)]
+    nrb = [simgen.gen_norecip_broadcast(rng) for _ in range(150 if q else 3000)]
     simprops.run(rep, "C11", model_ok,
                  [("faults", cases, (1, 4), ORACLES, nontrivial),
                   ("sched-clock", b, (1,), ORACLES + (oracles.o_clock,), nontrivial),
                   ("panic-after-nested-simulation", npn, (1, 2), ORACLES, nontrivial),
-                  ("failure-with-messages-in-flight", pif, (1, 2, 4), ORACLES + (oracles.o_inflight_failure,), nontrivial)],
-                 "failure-with-messages-in-flight: a handler sends to 1-3 live models and then panics or sends to a dropped mailbox: the verdict must be Panic / NoRecipient of that model whatever is still queued. panic-after-nested-simulation: a handler runs a nested simulation (1-2 threads; its model may panic, the error being handled) and then panics itself: the enclosing run must return Panic naming the enclosing model, not propagate the panic. faults: each fault kind (panic, NoRecipient from a model / from a source action, OutOfSync, MessageLoss, Deadlock by query loop-back, InvalidDeadline, BadQuery, scheduling errors) injected after an optional prefix, with empty and non-empty scheduler queue, followed by 1-3 further calls from {step, step_until, process_event, process_query, process}; 1 and 4 threads; thorough tier enumerates every fault x every tail of <=2 calls. non-trivial = a fatal or non-fatal error occurs")
+                  ("failure-with-messages-in-flight", pif, (1, 2, 4), ORACLES + (oracles.o_inflight_failure,), nontrivial),
+                  ("no-recipient-in-a-blocked-broadcast", nrb, (1, 2, 4), ORACLES + (oracles.o_norecip_broadcast,), nontrivial)],
+                 "no-recipient-in-a-blocked-broadcast: a port feeding a dropped mailbox and 1-3 live models whose capacity-1..2 mailboxes were filled just before: the broadcast cannot complete at its first poll and the verdict must still be NoRecipient naming the sender. failure-with-messages-in-flight: a handler sends to 1-3 live models and then panics or sends to a dropped mailbox: the verdict must be Panic / NoRecipient of that model whatever is still queued. panic-after-nested-simulation: a handler runs a nested simulation (1-2 threads; its model may panic, the error being handled) and then panics itself: the enclosing run must return Panic naming the enclosing model, not propagate the panic. faults: each fault kind (panic, NoRecipient from a model / from a source action, OutOfSync, MessageLoss, Deadlock by query loop-back, InvalidDeadline, BadQuery, scheduling errors) injected after an optional prefix, with empty and non-empty scheduler queue, followed by 1-3 further calls from {step, step_until, process_event, process_query, process}; 1 and 4 threads; thorough tier enumerates every fault x every tail of <=2 calls. non-trivial = a fatal or non-fatal error occurs")
 
 
 def timeouts(rep, tier, rng):
